@@ -44,9 +44,9 @@ func (C03) Title() string        { return "storage faults and attacker edits on 
 func (C03) NewPlan() interface{} { return &C03Plan{} }
 func (C03) Runs(tier string) int {
 	if tier == "thorough" {
-		return 200000
+		return 150000
 	}
-	return 8000
+	return 6000
 }
 
 func (C03) Meta() core.Meta {
@@ -74,7 +74,7 @@ func (C03) Generate(r *core.RNG, tier string, idx uint64) interface{} {
 		lib.ClampGrease(p.File.Recips, 96)
 		return p
 	}
-	p.File.Recips = lib.GenRecips(r, 5, r.Chance(1, 5), true)
+	p.File.Recips = lib.GenRecips(r, 5, r.Chance(1, 3), true)
 	e := &HeaderEdit{}
 	kinds := []string{"insert", "delete", "subst", "wdrop", "wdup", "wswap", "type", "arg", "argdel", "argadd", "body", "bodylen",
 		"grease_insert", "stanza_delete", "stanza_dup", "permute", "mac_random", "mac_otherkey", "flip",
@@ -271,7 +271,17 @@ func applyHeaderEdit(e *HeaderEdit, F []byte, l *lib.Layout, disk *seam.SimDisk,
 		}
 	case "bodylen":
 		b := h.Stanzas[i].Body
-		switch e.J % 3 {
+		switch e.J % 6 {
+		case 3:
+			// leading zero bytes: the same number for an integer-valued body (RSA), other bytes for the header
+			h.Stanzas[i].Body = append(make([]byte, 1+e.N%3), b...)
+		case 4:
+			h.Stanzas[i].Body = append(make([]byte, 48), b...)
+		case 5:
+			if len(b) == 0 {
+				return nil, false
+			}
+			h.Stanzas[i].Body = b[1:]
 		case 0:
 			h.Stanzas[i].Body = append(b, byte(e.Byte))
 		case 1:
